@@ -532,6 +532,8 @@ _BIN = {
     "eq": lambda a, b: a == b,
     "lt": lambda a, b: a < b,
     "max": lambda a, b: np.maximum(a, b),
+    "arctan2": lambda a, b: np.arctan2(a, b),
+    "isub": lambda a, b: a.copy().__isub__(b),
 }
 
 
